@@ -14,11 +14,13 @@ import (
 // C18 — static route lookup: fixed precedence and a stable answer (DESIGN.md §4 C18).
 
 var c18Patterns = []string{"a.example.com", "example.com", "*.example.com", "a.example.*", "*", "a*m", "default",
-	"aXexample.com", "*.org", "b.example.org", "a.*.com", "*example.com", "x.o*g", "a*a"}
+	"aXexample.com", "*.org", "b.example.org", "a.*.com", "*example.com", "x.o*g", "a*a",
+	// a literal written with capitals (looked up with exactly that spelling only: whether another letter case matches is a don't-care)
+	"Gold.Example.com"}
 var c18Hosts = []string{"a.example.com", "b.example.com", "example.com", "aXexample.com", "a.example.org", "b.example.org",
 	"x.org", "am", "a.b.com", "default", "a.example.comX", "zzz", "Xa.example.com", "a-example.com", "x.org.org", "a.example.com.example.com",
 	// hosts in which the literal pieces on both sides of an inner '*' would have to overlap
-	"a.com", "a", "x.og", "aa"}
+	"a.com", "a", "x.og", "aa", "Gold.Example.com"}
 
 // refWild: '*' stands for any character sequence, every other character for itself.
 func refWild(pat, s string) bool {
